@@ -121,12 +121,16 @@ def r3_clamp(c, facts):
         if sw['t'] != 'switch' or 'l' not in sw['discr']:
             continue
         for s in blk['stmts']:
-            if s['s'] == 'assign' and s['place']['l'] == sw['discr']['l'] and s['rv']['r'] == 'binop' and s['rv']['op'] == 'Eq':
+            if s['s'] == 'assign' and s['place']['l'] == sw['discr']['l'] and s['rv']['r'] == 'binop' and s['rv']['op'] in ('Eq', 'Ne'):
                 us = [u.op_unit(o) for o in (s['rv']['a'], s['rv']['b'])]
                 fields = [MF.field_path(o)[-1:] for o in (s['rv']['a'], s['rv']['b']) if 'l' in o]
                 if us == ['L', 'L'] or ['line'] in fields:
                     f_t = [x for v, x in sw['targets'] if v == '0']
-                    cmps.append((b, sw['otherwise'], f_t[0] if f_t else None))
+                    if s['rv']['op'] == 'Eq':
+                        cmps.append((b, sw['otherwise'], f_t[0] if f_t else None))
+                    elif f_t:
+                        # `while line != position.line`: the requested line is reached on the false edge
+                        cmps.append((b, f_t[0], sw['otherwise']))
     if not incs or not cmps:
         c.bad(R, 'clamp-structure-not-found', 'position_to_utf8: cannot find the line counter and its comparison with position.line')
         return
